@@ -193,11 +193,6 @@ func checkTxPaths(b []byte, rep *report) {
 			if err != nil {
 				return txView{}
 			}
-			for _, a := range t.Attributes {
-				if a.Type >= transaction.ReservedLowerBound {
-					return ref // Reserved attributes have no JSON form (counted separately)
-				}
-			}
 			j, err := json.Marshal(t)
 			if err != nil {
 				return txView{}
